@@ -502,12 +502,27 @@ func runC10(c *Ctx) {
 				if !lc.isLimit(y) || (op != token.LEQ && op != token.LSS) {
 					continue
 				}
-				involvesLen := false
-				for _, l := range Origins(x) {
-					if l.Kind == "call" && CalleeName(l.Call) == "builtin len" && isLenOf(l.V, data) {
-						involvesLen = true
+				// the checked quantity involves len(data) whichever way it was computed: for a
+				// join (phi) every incoming value must (seed C10h substituted a declared size on
+				// one edge, so that the running total was no longer what is compared)
+				var involves func(v ssa.Value, depth int) bool
+				involves = func(v ssa.Value, depth int) bool {
+					if ph, isPhi := strip(v).(*ssa.Phi); isPhi && depth < 4 {
+						for _, e := range ph.Edges {
+							if !involves(e, depth+1) {
+								return false
+							}
+						}
+						return len(ph.Edges) > 0
 					}
+					for _, l := range Origins(v) {
+						if l.Kind == "call" && CalleeName(l.Call) == "builtin len" && isLenOf(l.V, data) {
+							return true
+						}
+					}
+					return false
 				}
+				involvesLen := involves(x, 0)
 				if involvesLen {
 					how = "dominating check: size of incoming data (plus what is buffered) <= limit"
 					if f.If != nil {
@@ -829,8 +844,71 @@ func runC10(c *Ctx) {
 	// such an error is wrapped into a new error of another (constant) code, the wrapping happens
 	// only on edges that know it is NOT the limit error (errors.As failed, or its code is not
 	// CodeResourceExhausted) - otherwise 'message too large' reaches the client as 'internal'.
-	c.Rule("C10.9", "the error of a limit-enforcing decompression is not re-labelled with another code", 1)
+	c.Rule("C10.9", "an error that may be the limit error is not re-labelled with another code", 1)
 	{
+		isCtor := func(cal *ssa.Function) bool {
+			return cal != nil && p.inScope(cal) && cal.Signature.Results().Len() == 1 && isErrorType(cal.Signature.Results().At(0).Type()) && buildsRex(cal, 0)
+		}
+		// functions whose error result may be a limit error: they return what a limit-error
+		// constructor made, or what another such function returned (fixpoint)
+		mayLimit := map[*ssa.Function]bool{}
+		for changed := true; changed; {
+			changed = false
+			for _, fn := range p.Funcs {
+				if mayLimit[fn] || !p.inScope(fn) || isCtor(fn) {
+					continue
+				}
+				ei := errorResultIndex(fn.Signature)
+				if ei < 0 {
+					continue
+				}
+				hit := false
+				ForEachInstr(fn, func(in ssa.Instruction) {
+					ret, ok := in.(*ssa.Return)
+					if !ok || hit {
+						return
+					}
+					rv := ReturnValues(ret)
+					if ei >= len(rv) {
+						return
+					}
+					for _, l := range Origins(rv[ei]) {
+						if l.Kind != "call" {
+							continue
+						}
+						sc := l.Call.Common().StaticCallee()
+						if sc != nil && (isCtor(sc) || mayLimit[sc]) {
+							hit = true
+						}
+					}
+				})
+				if hit {
+					mayLimit[fn] = true
+					changed = true
+				}
+			}
+		}
+		// wrappers: module functions that re-label their error argument with a constant other code
+		wrapperCode := func(cal *ssa.Function) (int64, int, bool) {
+			if cal == nil || !p.inScope(cal) || len(cal.Blocks) != 1 {
+				return 0, 0, false
+			}
+			for _, call := range Calls(cal) {
+				if !IsCallTo(call, "connectrpc.com/connect.NewError", "connectrpc.com/connect.NewWireError") {
+					continue
+				}
+				k, isK := ConstInt(call.Common().Args[0])
+				if !isK {
+					continue
+				}
+				for i, pr := range cal.Params {
+					if strip(call.Common().Args[1]) == ssa.Value(pr) {
+						return k, i, true
+					}
+				}
+			}
+			return 0, 0, false
+		}
 		nWrap := 0
 		for _, fn := range SortedFuncs(reach) {
 			if !p.inScope(fn) {
@@ -838,11 +916,24 @@ func runC10(c *Ctx) {
 			}
 			for _, dc := range Calls(fn) {
 				sc := dc.Common().StaticCallee()
-				if sc == nil || N(sc) != "decompressLimited" {
+				if sc == nil || !(N(sc) == "decompressLimited" || mayLimit[sc] || isCtor(sc)) {
 					continue
 				}
 				errV := dc.Value()
 				if errV == nil {
+					continue
+				}
+				var errVals []ssa.Value
+				if tup, isTup := errV.Type().(*types.Tuple); isTup {
+					for _, ref := range *errV.Referrers() {
+						if ex, isEx := ref.(*ssa.Extract); isEx && isErrorType(tup.At(ex.Index).Type()) {
+							errVals = append(errVals, ex)
+						}
+					}
+				} else if isErrorType(errV.Type()) {
+					errVals = append(errVals, errV)
+				}
+				if len(errVals) == 0 {
 					continue
 				}
 				fromErr := func(v ssa.Value) bool {
@@ -853,8 +944,10 @@ func runC10(c *Ctx) {
 							return false
 						}
 						seen[v] = true
-						if v == ssa.Value(errV) {
-							return true
+						for _, ev := range errVals {
+							if v == ev {
+								return true
+							}
 						}
 						switch x := v.(type) {
 						case *ssa.Call:
@@ -889,13 +982,26 @@ func runC10(c *Ctx) {
 					return walk(v, 0)
 				}
 				for _, nc := range Calls(fn) {
-					if !IsCallTo(nc, "connectrpc.com/connect.NewError", "connectrpc.com/connect.NewWireError") {
+					var code int64
+					var wrapped ssa.Value
+					switch {
+					case IsCallTo(nc, "connectrpc.com/connect.NewError", "connectrpc.com/connect.NewWireError"):
+						k, isK := ConstInt(nc.Common().Args[0])
+						if !isK {
+							continue
+						}
+						code, wrapped = k, nc.Common().Args[1]
+					default:
+						k, ai, isW := wrapperCode(nc.Common().StaticCallee())
+						if !isW || ai >= len(nc.Common().Args) {
+							continue
+						}
+						code, wrapped = k, nc.Common().Args[ai]
+					}
+					if code == 8 /* CodeResourceExhausted */ || !fromErr(wrapped) {
 						continue
 					}
-					k, isK := ConstInt(nc.Common().Args[0])
-					if !isK || k == 8 /* CodeResourceExhausted */ || !fromErr(nc.Common().Args[1]) {
-						continue
-					}
+					// the wrapper's result must matter: skip when it is the constructor's own caller chain
 					nWrap++
 					edgeKnows := func(fs []Fact) bool {
 						for _, f := range fs {
@@ -927,13 +1033,13 @@ func runC10(c *Ctx) {
 					}
 					ok := blockKnows(nc.Block(), 0)
 					c.Check(ok, "C10.9", FuncName(fn), "limit-error-keeps-its-code", nc.Pos(),
-						"the decompression error is wrapped into another code only where it is known not to be the limit error",
-						"the error of a limit-enforcing decompression is wrapped into a new error with another code without excluding the limit error first: a compressed body that inflates beyond the limit ends the RPC as 'internal' instead of resource_exhausted (the same body sent uncompressed is reported correctly)")
+						"the error is wrapped into another code only where it is known not to be the limit error",
+						"an error that may be the limit error (it comes from "+CalleeName(dc)+") is wrapped into a new error with another code without excluding the limit error first: exceeding the message limit then ends the RPC with that other code instead of resource_exhausted")
 				}
 			}
 		}
 		if nWrap == 0 {
-			c.OK("C10.9", "package", "limit-error-keeps-its-code", token.NoPos, "no decompression error is wrapped into an error of another code")
+			c.OK("C10.9", "package", "limit-error-keeps-its-code", token.NoPos, "no error that may be the limit error is wrapped into an error of another code")
 		}
 	}
 
